@@ -78,6 +78,7 @@ def run(ctx):
     ct = ClassifierTable(p)
     _classify_tables(r, p, ct)
     _direct_writes(r, p, ct)
+    _split_builders(r, p, ct)
     _framing(r, p)
     _clean(r, ctx)
     _reader(r, p)
@@ -583,6 +584,92 @@ def _sibling_detect_guards(p, fi, cv):
     return False
 
 
+def _split_builders(r, p, ct):
+    """The dotted-name splitter: classify_selected_name replaces one item by build_*_token_list(value.split(".")).  The
+    table reason for that replacement says the builders emit one token per part, in order, each followed by a dot token,
+    and drop the trailing dot - so the joined text is the original.  That claim is checked here by shape."""
+    cs = p.functions.get("vsg.vhdlFile.classify.utils:classify_selected_name")
+    if cs is None:
+        raise AnalysisError("classify_selected_name vanished")
+    if not any(isinstance(n, ast.Assign) and isinstance(n.value, ast.Call) and isinstance(n.value.func, ast.Attribute) and n.value.func.attr == "split" and len(n.value.args) == 1 and isinstance(n.value.args[0], ast.Constant) and n.value.args[0].value == "." for n in walk_function(cs.node)):
+        r.fail("C04.classify", cs.key + ":split", "the dotted name is no longer split on '.' alone", cs.loc())
+    builders = [fi for fi in p.functions.values() if fi.module.name == "vsg.vhdlFile.classify.utils" and fi.name.startswith("build_") and fi.name.endswith("_token_list") and fi.name != "build_selected_name_token_list"]
+    if len(builders) < 2:
+        raise AnalysisError("selected-name builders not found")
+    for b in sorted(builders, key=lambda f: f.key):
+        problems = []
+        parts = b.params[0]
+        loops = [n for n in walk_function(b.node) if isinstance(n, ast.For)]
+        rets = [n for n in walk_function(b.node) if isinstance(n, ast.Return)]
+        if len(loops) != 1 or not ((isinstance(loops[0].iter, ast.Call) and norm(loops[0].iter.func) == "enumerate" and norm(loops[0].iter.args[0]) == parts) or norm(loops[0].iter) == parts):
+            problems.append("does not loop over every part of the split name")
+        if any(isinstance(n, ast.Subscript) and norm(n.value) == parts and isinstance(n.slice, (ast.Constant, ast.UnaryOp)) for n in walk_function(b.node)):
+            problems.append("picks parts by fixed position")
+        if len(rets) != 1 or not isinstance(rets[0].value, ast.Name):
+            problems.append("does not return the one list it builds")
+        out = norm(rets[0].value) if rets and rets[0].value is not None else "?"
+        pops = [n for n in walk_function(b.node) if isinstance(n, ast.Call) and isinstance(n.func, ast.Attribute) and n.func.attr == "pop" and norm(n.func.value) == out]
+        if len(pops) != 1 or pops[0].args or (loops and pops[0].lineno < loops[0].end_lineno):
+            problems.append("does not drop exactly the trailing separator after the loop")
+        # element function (or inline body)
+        body = loops[0].body if loops else []
+        ef = None
+        if len(body) == 1 and isinstance(body[0], ast.Expr) and isinstance(body[0].value, ast.Call) and isinstance(body[0].value.func, ast.Name):
+            ef = p.functions.get("vsg.vhdlFile.classify.utils:" + body[0].value.func.id)
+        if ef is None:
+            problems.append("loop body is not a call of an element classifier")
+        else:
+            call = body[0].value
+            amap = {pn: norm(a) for pn, a in zip(ef.params, call.args)}
+            lst = [pn for pn, a in amap.items() if a == out]
+            prt = [pn for pn, a in amap.items() if a == parts]
+            idx = [pn for pn, a in amap.items() if isinstance(loops[0].target, ast.Tuple) and a == norm(loops[0].target.elts[0])]
+            if not (lst and prt and idx):
+                problems.append("element classifier is not given the index, the parts and the output list")
+            else:
+                lst, prt, idx = lst[0], prt[0], idx[0]
+                stmts = [st for st in ef.node.body if not (isinstance(st, ast.Expr) and isinstance(st.value, ast.Constant))]
+                svar = None
+                if stmts and isinstance(stmts[0], ast.Assign) and norm(stmts[0].value) == "%s[%s]" % (prt, idx):
+                    svar = norm(stmts[0].targets[0])
+                    stmts = stmts[1:]
+                else:
+                    problems.append("element text is not parts[index]")
+
+                def is_part_append(st):
+                    return isinstance(st, ast.Expr) and isinstance(st.value, ast.Call) and norm(st.value.func) == lst + ".append" and len(st.value.args) == 1 and isinstance(st.value.args[0], ast.Call) and len(st.value.args[0].args) == 1 and norm(st.value.args[0].args[0]) == svar
+
+                def is_dot_append(st):
+                    return isinstance(st, ast.Expr) and isinstance(st.value, ast.Call) and norm(st.value.func) == lst + ".append" and len(st.value.args) == 1 and isinstance(st.value.args[0], ast.Call) and not st.value.args[0].args and norm(st.value.args[0].func).endswith(".dot")
+
+                def branches(ifn):
+                    out_ = [ifn.body]
+                    if len(ifn.orelse) == 1 and isinstance(ifn.orelse[0], ast.If):
+                        out_ += branches(ifn.orelse[0])
+                    elif ifn.orelse:
+                        out_.append(ifn.orelse)
+                    else:
+                        out_.append(None)  # missing else
+                    return out_
+
+                if len(stmts) == 2 and isinstance(stmts[0], ast.If) and is_dot_append(stmts[1]):
+                    for br in branches(stmts[0]):
+                        if br is None or len(br) != 1 or not is_part_append(br[0]):
+                            problems.append("a branch of the element classifier does not append exactly one token carrying the part's text")
+                            break
+                elif len(stmts) == 2 and is_part_append(stmts[0]) and is_dot_append(stmts[1]):
+                    pass
+                else:
+                    problems.append("element classifier is not `one token with the part's text, then one dot`")
+        for k in ("vsg.token.use_clause:dot", "vsg.token.context_reference:dot"):
+            if ct.const_value.get(k) != ".":
+                problems.append("%s is no longer the constant '.'" % k)
+        if problems:
+            r.fail("C04.classify", b.key + ":split-builder", "%s no longer provably re-emits every part of the split name (%s): text between the dots is lost when the file is written back" % (b.name, "; ".join(sorted(set(problems))[:3])), b.loc())
+        else:
+            r.ok("C04.classify", b.key + ":split-builder", "one token per part of value.split('.'), in order, each followed by '.', trailing '.' dropped")
+
+
 def _direct_writes(r, p, ct):
     """V3: every direct write of a token list in the classifier."""
     item = p.cls("vsg.parser:item")
@@ -865,6 +952,10 @@ def _clean(r, ctx):
 
 _T = "vsg/tokens.py"
 VARIANTS = [
+    Variant("C04", "use-clause name rebuilt from its first, second and last part", "fire",
+            [("vsg/vhdlFile/classify/utils.py", "    lNewTokens = []\n    for iThisToken, sToken in enumerate(lTokens):\n        classify_use_clause_selected_name_elements(iThisToken, lNewTokens, lTokens, token)\n    lNewTokens.pop()\n    return lNewTokens", "    lNewTokens = [token.library_name(lTokens[0])]\n    if len(lTokens) > 2:\n        lNewTokens.extend([token.dot(), token.package_name(lTokens[1])])\n    if len(lTokens) > 1:\n        lNewTokens.extend([token.dot(), token.item_name(lTokens[-1])])\n    return lNewTokens")], rule="C04.classify", key="split-builder"),
+    Variant("C04", "context-reference element classifier skips the dot for the last part", "fire",
+            [("vsg/vhdlFile/classify/utils.py", "        lNewTokens.append(token.context_name(sToken))\n    lNewTokens.append(token.dot())", "        lNewTokens.append(token.context_name(sToken))\n    if iThisToken < len(lTokens):\n        lNewTokens.append(token.dot())")], rule="C04.classify", key="split-builder"),
     Variant("C04", "delimited-comment merge keeps only the text tokens of the replaced run", "fire",
             [("vsg/vhdlFile/classify/comment.py", "        sNewValue = \"\"\n        for iIndex in range(iStartIndex, iEndIndex + 1):\n            sNewValue += lObjects[iIndex].get_value()\n        del lObjects[iStartIndex : iEndIndex + 1]\n        lObjects.insert(iStartIndex, token.text(sNewValue))", "        lText = [oToken.get_value() for oToken in lObjects[iStartIndex : iEndIndex + 1] if isinstance(oToken, token.text)]\n        lObjects[iStartIndex : iEndIndex + 1] = [token.text(\"\".join(lText))]")], rule="C04.classify"),
     Variant("C04", "reader switches to read().splitlines()", "fire",
